@@ -270,6 +270,154 @@ fn run_builder(ctx: &mut Ctx, key: &SignedSecretKey) {
     }
 }
 
+/// a source that mirrors the model's event list exactly: a data event is handed out in as many
+/// reads as the caller's buffer needs, an error event makes one read fail (one-shot)
+struct EvSource {
+    evs: std::collections::VecDeque<Option<Vec<u8>>>,
+}
+
+impl Read for EvSource {
+    fn read(&mut self, buf: &mut [u8]) -> std::io::Result<usize> {
+        match self.evs.pop_front() {
+            None => Ok(0),
+            Some(None) => Err(std::io::Error::new(std::io::ErrorKind::Interrupted, "injected source fault")),
+            Some(Some(c)) => {
+                if c.len() <= buf.len() {
+                    buf[..c.len()].copy_from_slice(&c);
+                    Ok(c.len())
+                } else {
+                    let n = buf.len();
+                    buf.copy_from_slice(&c[..n]);
+                    self.evs.push_front(Some(c[n..].to_vec()));
+                    Ok(n)
+                }
+            }
+        }
+    }
+}
+
+/// plaintext in which every 12-octet window is unique and recognisable
+fn marked_plaintext(n: usize) -> Vec<u8> {
+    let mut v = Vec::with_capacity(n + 12);
+    let mut i = 0u32;
+    while v.len() < n {
+        v.extend_from_slice(b"PLAIN#");
+        v.extend_from_slice(format!("{i:06}").as_bytes());
+        i += 1;
+    }
+    v.truncate(n);
+    v
+}
+
+/// the stream encryptors, polled on after a source failure (`enc_poll`): the model predicts the
+/// result of every call; oracles: an error is sticky, nothing of the plaintext is handed out
+fn run_enc_poll(ctx: &mut Ctx) {
+    let mut rng = ChaCha8Rng::seed_from_u64(ctx.seed ^ 0xC093);
+    let n_cases = ctx.pick(60usize, 1500usize);
+    for case in 0..n_cases {
+        let aead_mode = case % 2 == 1;
+        // CFB: B = 8192, queued = block size + 2, trailer = 22; AEAD: B = 64 << cs, tag 16
+        let (b, queued, trailer, grow, cs_octet) = if aead_mode {
+            let cs = [0u8, 1, 2][case / 2 % 3];
+            (64usize << cs, 0usize, 16usize, 16usize, cs)
+        } else {
+            (8192usize, 18usize, 22usize, 0usize, 0u8)
+        };
+        // events: data chunks around the refill size, one (sometimes two, sometimes no) error
+        let n_ev = rng.gen_range(1..=7usize);
+        let mut evs: Vec<Option<usize>> = (0..n_ev)
+            .map(|_| {
+                Some(match rng.gen_range(0..6) {
+                    0 => 1,
+                    1 => b,
+                    2 => b - 1,
+                    3 => b + 1,
+                    4 => rng.gen_range(1..=2 * b + 3),
+                    _ => rng.gen_range(1..=b.min(300)),
+                })
+            })
+            .collect();
+        for _ in 0..[1usize, 1, 1, 2, 0][case % 5] {
+            let at = rng.gen_range(0..=evs.len());
+            evs.insert(at, None);
+        }
+        let total: usize = evs.iter().flatten().sum();
+        let pt = marked_plaintext(total);
+        let mut pos = 0usize;
+        let mk_source = |evs: &Vec<Option<usize>>, pos: &mut usize| EvSource {
+            evs: evs
+                .iter()
+                .map(|e| {
+                    e.map(|n| {
+                        let c = pt[*pos..*pos + n].to_vec();
+                        *pos += n;
+                        c
+                    })
+                })
+                .collect(),
+        };
+        let n_reqs = evs.len() * 3 + 8;
+        let reqs: Vec<usize> = (0..n_reqs)
+            .map(|i| match (case + i) % 4 {
+                0 => 8192,
+                1 => rng.gen_range(1..=40usize),
+                2 => b + 16,
+                _ => rng.gen_range(1..=3 * b),
+            })
+            .collect();
+        let src = mk_source(&evs, &mut pos);
+        let key = [0x42u8; 16];
+        let mut out: Vec<u8> = Vec::new();
+        let results: Vec<String> = {
+            let run = |reader: &mut dyn Read, out: &mut Vec<u8>| -> Vec<String> {
+                reqs.iter()
+                    .map(|&n| {
+                        let mut buf = vec![0u8; n];
+                        match guarded(|| reader.read(&mut buf)) {
+                            Ok(Ok(k)) => {
+                                out.extend_from_slice(&buf[..k]);
+                                k.to_string()
+                            }
+                            Ok(Err(_)) => "E".to_string(),
+                            Err(_) => "P".to_string(),
+                        }
+                    })
+                    .collect()
+            };
+            if aead_mode {
+                let cs = ChunkSize::try_from(cs_octet).expect("chunk size");
+                match pgp::packet::SymEncryptedProtectedData::encrypt_seipdv2_stream(SymmetricKeyAlgorithm::AES128, AeadAlgorithm::Ocb, cs, &key, [7u8; 32], src) {
+                    Ok(mut enc) => run(&mut enc, &mut out),
+                    Err(_) => continue,
+                }
+            } else {
+                match SymmetricKeyAlgorithm::AES128.stream_encryptor(ChaCha8Rng::seed_from_u64(3), &key, src) {
+                    Ok(mut enc) => run(&mut enc, &mut out),
+                    Err(_) => continue,
+                }
+            }
+        };
+        let evs_txt: Vec<String> = evs.iter().map(|e| e.map(|n| n.to_string()).unwrap_or_else(|| "999999999".into())).collect();
+        let reqs_txt: Vec<String> = reqs.iter().map(|n| n.to_string()).collect();
+        let req = format!("enc_poll b={b} queued={queued} trailer={trailer} grow={grow} evs={} reqs={}", evs_txt.join(","), reqs_txt.join(","));
+        ctx.case(req.clone(), format!("ok:{}", results.join(",")));
+        let site = if aead_mode { "crypto/aead/encryptor.rs StreamEncryptor polled after a source error" } else { "crypto/sym/encryptor.rs StreamEncryptor polled after a source error" };
+        let first_err = results.iter().position(|r| r == "E" || r == "P");
+        let sticky = match first_err {
+            Some(i) => results[i..].iter().all(|r| r == "E"),
+            None => true,
+        };
+        ctx.oracle("error_is_sticky", site, &req, sticky && !results.iter().any(|r| r == "P"), &results.join(","));
+        let leaked = pt.len() >= 12 && out.windows(12).any(|w| w.starts_with(b"PLAIN#") && w[6..].iter().all(|c| c.is_ascii_digit()));
+        ctx.oracle("no_plaintext_released", site, &req, !leaked, &format!("{} octets handed out", out.len()));
+        if evs.iter().any(|e| e.is_none()) {
+            let clean_eof = results.iter().any(|r| r == "0");
+            ctx.oracle("source_fault_never_clean_eof", site, &req, !clean_eof, &results.join(","));
+        }
+        ctx.stat(if aead_mode { "enc_poll:aead" } else { "enc_poll:cfb" });
+    }
+}
+
 fn now_secs() -> u64 {
     std::time::SystemTime::now().duration_since(std::time::UNIX_EPOCH).map(|d| d.as_secs()).unwrap_or(0)
 }
@@ -412,6 +560,7 @@ fn run_model_ops(ctx: &mut Ctx) {
 pub fn run(ctx: &mut Ctx) {
     let key = keys::ed25519_x25519(ChaCha8Rng::seed_from_u64(99), KeyVersion::V4);
     run_model_ops(ctx);
+    run_enc_poll(ctx);
     // thorough: repeated with fresh payloads, schedules and fault positions
     let rounds = ctx.pick(1u64, 160u64);
     let base = ctx.seed;
